@@ -2546,7 +2546,7 @@ namespace bxdecay0 {
       if (name_starts_with(chnuclide_, "Ta182")) {
         Ta182(prng_, event_, 0., tdnuc);
       }
-      if (name_starts_with(chnuclide_, "Te133")) {
+      if (name_starts_with(chnuclide_, "Te133") && !name_starts_with(chnuclide_, "Te133m")) {
         Te133(prng_, event_, 0., tdnuc);
       }
       if (name_starts_with(chnuclide_, "Te133m")) {
